@@ -140,6 +140,25 @@ def bfs(spec_factory, depth, seed=0, jobs=1, st=None, max_states=None, collect=N
     return st, info
 
 
+def describe_attr(obj, v):
+    """Canonical description of an instance attribute for a state key: plain data by value; a callable by its name and by WHOSE it
+    is (a bound method of one of the object's own attributes, of the object itself, or of a foreign object); other objects by
+    type and, where cheap, by their own plain attributes — never by address."""
+    import re
+    if callable(v) and not isinstance(v, type):
+        owner = getattr(v, '__self__', None)
+        whose = 'unbound'
+        if owner is obj:
+            whose = 'self'
+        elif owner is not None:
+            whose = 'foreign'
+            for k, x in vars(obj).items():
+                if x is owner:
+                    whose = 'own.' + k
+        return ('callable', getattr(v, '__name__', type(v).__name__), whose)
+    return re.sub(r' at 0x[0-9a-fA-F]+', ' at <addr>', repr(v)[:200])
+
+
 def outcome(fn, *a, **kw):
     """('ok', value) or ('raise', ExceptionClassName)"""
     try:
